@@ -15,9 +15,10 @@
    [delivered_input] (destination side: no caller account, recipient account present, caller <> recipient,
    and NFT payloads as the sender side emits them — discharged by C11_emitted_payload_ok_nft and _multi); at most 2^40
    arguments.
-   OPEN FINDING F11: a same-shard MultiESDTNFTTransfer item with nonce 0 whose destination entry under the
-   same storage key carries metadata panics (C11_F11_refuted, confirmed on the real code); the class
-   [f11_excluded] removes exactly the same-shard multi-transfers that name a nonce-0 item. *)
+   REPAIRED FINDING F11 (/repo 7b409c0): a same-shard MultiESDTNFTTransfer item with nonce 0 whose destination
+   entry under the same storage key carries metadata used to dereference the nil TokenMetaData of the incoming
+   token; it is now rejected with ErrWrongNFTOnDestination (C11_F11_input_is_an_error), the pre-repair helper
+   is kept as [legacy_add_nft_to_destination] with C11_legacy_f11_refuted.  No exclusion remains. *)
 From Coq.Strings Require Import String.
 From EV Require Import Base.Bytes Base.Store Base.Monad gen.Consts Codec.Types Codec.CodecOk Helpers.Helpers
   Ledger.Types Ledger.Env Ledger.Funcs Ledger.Transfers Ledger.World Corr.Exec
@@ -61,13 +62,21 @@ Proof.
   intros. unfold delivered_input, payload_ok, args_payload_ok, origin_input, flag_ok, StoreOK.
   split; [tauto|]. split; [tauto|]. split; tauto.
 Qed.
+Example C11_payload_hypotheses_unfolded : forall (E : env) (A : list bytes),
+  (nft_payload_ok E A <->
+     forall b, nth_error A 3 = Some b -> forall t, dec_tok (cdc E) b = Some t -> t_value t <> None /\ t_meta t <> None)
+  /\ (multi_payload_ok E A <->
+     forall a0 idx nb b, nth_error A 0 = Some a0 -> idx < bigU64 a0 ->
+       nth_error A (N.to_nat (1 + idx * 3 + 1)) = Some nb -> 0 < bigU64 nb ->
+       nth_error A (N.to_nat (1 + idx * 3 + 2)) = Some b ->
+       forall t, dec_tok (cdc E) b = Some t -> t_value t <> None).
+Proof. intros. unfold nft_payload_ok, multi_payload_ok, payload_good, payload_valued. split; reflexivity. Qed.
 
 (* ---- 1. never a panic ---- *)
 Theorem C11_exec_no_panic : forall (E : env) (f : bytes) (i : input) (s : mstate),
   codec_ok (cdc E) -> flag_ok (cdc E) -> StoreOK E s ->
   origin_input i \/ delivered_input E f i ->
   alen (i_args i) < 2 ^ 40 ->
-  f11_excluded E f i ->
   fst (exec E f i s) <> Panic.
 Proof. exact exec_no_panic. Qed.
 
@@ -76,7 +85,6 @@ Theorem C11_exec_total : forall (E : env) (f : bytes) (i : input) (s : mstate),
   codec_ok (cdc E) -> flag_ok (cdc E) -> StoreOK E s ->
   origin_input i \/ delivered_input E f i ->
   alen (i_args i) < 2 ^ 40 ->
-  f11_excluded E f i ->
   (exists o s', exec E f i s = (Ok o, s') /\ o_rc o = C.Ok /\ StoreOK E s')
   \/ (exists e s', exec E f i s = (Err e, s')).
 Proof. exact exec_total. Qed.
@@ -157,15 +165,22 @@ Example C11_plain_transfer_is_ok :
   exists o s', exec wE C.BuiltInFunctionESDTTransfer (mk_input addrA (List.repeat x03 32) [tokABCD; [x03]] 1000 true true) sF11 = (Ok o, s').
 Proof. exact plain_transfer_is_ok. Qed.
 
-(* ---- 8. refutation witnesses ---- *)
-(* OPEN finding F11: all hypotheses of C11_exec_no_panic except [f11_excluded] hold, and the call panics *)
-Theorem C11_F11_refuted :
+(* ---- 8. regression witnesses of the repaired defects ---- *)
+(* REPAIRED finding F11 (regression documentation): the input that crashed the tree before 7b409c0 satisfies every
+   hypothesis of C11_exec_no_panic and is now an error; the pre-repair helper panics on the step it reaches *)
+Example C11_F11_input_is_an_error :
   codec_ok (cdc wE) /\ flag_ok (cdc wE) /\ StoreOK wE sF11 /\ origin_input iF11
   /\ alen (i_args iF11) < 2 ^ 40
-  /\ fst (exec wE C.BuiltInFunctionMultiESDTNFTTransfer iF11 sF11) = Panic.
-Proof. exact F11_multi_fungible_onto_aliased_nft_panics. Qed.
-Theorem C11_F11_input_is_excluded : ~ f11_excluded wE C.BuiltInFunctionMultiESDTNFTTransfer iF11.
-Proof. exact F11_input_is_excluded. Qed.
+  /\ fst (exec wE C.BuiltInFunctionMultiESDTNFTTransfer iF11 sF11) = Err EWrongNFTOnDestination.
+Proof. exact F11_input_is_an_error. Qed.
+Example C11_legacy_f11_refuted :
+  fst (legacy_add_nft_to_destination wE addrB (P ++ tokABCD) (set_value fungible10 (Some 3%Z)) false false sF11) = Panic
+  /\ fst (add_nft_to_destination wE addrB (P ++ tokABCD) (set_value fungible10 (Some 3%Z)) false false sF11)
+     = Err EWrongNFTOnDestination.
+Proof. exact legacy_f11_refuted. Qed.
+Theorem C11_legacy_add_nft_same : forall (E : env) dst key t verify rae s,
+  t_meta t <> None -> legacy_add_nft_to_destination E dst key t verify rae s = add_nft_to_destination E dst key t verify rae s.
+Proof. exact legacy_add_nft_same. Qed.
 (* REPAIRED defect F3 (regression documentation): the legacy count guard passes the wrap residue *)
 Example C11_legacy_count_guard_refuted :
   (5 <? u64 (u64 (nWrap * 3) + 2)) = false /\ u64 (u64 (nWrap * 3) + 2) = 4
@@ -186,4 +201,5 @@ Print Assumptions C11_emitted_payload_ok_multi.
 Print Assumptions C11_deliver_input_delivered.
 Print Assumptions C11_refund_input_delivered.
 Print Assumptions C11_codec_instance.
-Print Assumptions C11_F11_refuted.
+Print Assumptions C11_F11_input_is_an_error.
+Print Assumptions C11_legacy_f11_refuted.
